@@ -1727,7 +1727,10 @@ class InterFromGitBranch(branch.GenericInterBranch):
                 tag_selector=tag_selector,
             )
             tags_ret = self.source.tags.merge_to(
-                self.target.tags, ("tags" in overwrite), ignore_master=True
+                self.target.tags,
+                ("tags" in overwrite),
+                ignore_master=True,
+                selector=tag_selector,
             )
             if isinstance(tags_ret, tuple):
                 result.tag_updates, result.tag_conflicts = tags_ret
